@@ -162,7 +162,12 @@ def extract_reuse_info(text: str) -> ReuseInfo:
         for pattern in _COPYRIGHT_PATTERNS:
             match = pattern.search(line)
             if match is not None:
-                copyright_matches.add(match.groupdict()["copyright"].strip())
+                copyright_matches.add(
+                    _strip_frame(
+                        line[: match.start()].strip(),
+                        match.groupdict()["copyright"].strip(),
+                    )
+                )
                 break
 
     return ReuseInfo(
@@ -232,11 +237,22 @@ def find_spdx_tag(text: str, pattern: re.Pattern) -> Iterator[str]:
         # To ensure we parse them correctly, if the line ends with the inverse
         # of the comment prefix, we strip that suffix. See #343 for a real
         # world example of a project doing this (LLVM).
-        suffix = prefix[::-1]
-        if suffix and value.endswith(suffix):
-            value = value[: -len(suffix)]
+        yield _strip_frame(prefix, value)
 
-        yield value.strip()
+
+def _strip_frame(prefix: str, value: str) -> str:
+    """If *value* ends with the mirror image of the line's *prefix*, set apart
+    from the text by whitespace (the right-hand side of an ASCII art frame),
+    return it without that suffix.
+    """
+    suffix = prefix[::-1]
+    if (
+        suffix
+        and value.endswith(suffix)
+        and value[: -len(suffix)][-1:].isspace()
+    ):
+        value = value[: -len(suffix)]
+    return value.strip()
 
 
 def filter_ignore_block(text: str) -> str:
